@@ -18,6 +18,7 @@ import (
 )
 
 type Program struct {
+	cbCount        int // callback result symbols handed out (calls.go callbackSym)
 	repo           string
 	fset           *token.FileSet
 	pkgs           map[string]*packages.Package // by import path
